@@ -8,9 +8,11 @@ import os
 M = []
 
 
-def mut(id, kind, props, desc, edits, expect=None, allow_error=False):
+def mut(id, kind, props, desc, edits, expect=None, allow_error=False, config=None):
     M.append({"id": id, "kind": kind, "properties": props, "desc": desc, "edits": edits, "expect": expect or [],
               "allow_error": allow_error})
+    if config:
+        M[-1]["config"] = config     # "release": judged in the build without debug assertions (./check analyses both)
 
 
 def ed(file, old, new, count=1):
@@ -1186,6 +1188,32 @@ mut("list-stalled-resets-curr-only", "break", ["C18"], "on a stall the iterator 
                     self.curr = self.head.load(Acquire, self.guard);
 """, """                    self.curr = self.head.load(Acquire, self.guard);
 """)], ["EBR-LIST"])
+# steps that exist only in the test suite's build configuration
+mut("rel-mark-cas-in-debug-assert", "break", ["C05", "C04"], "the cascade's DESTRUCTED mark is a `debug_assert!(cas.is_ok())`: it vanishes from a release build",
+    [ed(U, """                match rc.state.compare_exchange(
+                    old.as_raw(),
+                    old.with_destructed(true).as_raw(),
+                    Ordering::SeqCst,
+                    Ordering::SeqCst,
+                ) {
+                    Ok(_) => break,
+                    Err(curr) => old = State::from_raw(curr),
+                }""", """                debug_assert!(rc
+                    .state
+                    .compare_exchange(
+                        old.as_raw(),
+                        old.with_destructed(true).as_raw(),
+                        Ordering::SeqCst,
+                        Ordering::SeqCst,
+                    )
+                    .is_ok());
+                break;""")], ["CW-DESTRUCT-ONCE"], config="release")
+mut("rel-flush-only-in-debug", "break", ["C15"], "Local::flush schedules a collection only under cfg!(debug_assertions)",
+    [ed(I, """        self.push_to_global(guard);
+        self.schedule_collection();""", """        self.push_to_global(guard);
+        if cfg!(debug_assertions) {
+            self.schedule_collection();
+        }""")], ["EBR-FLUSH-SCHEDULES"], config="release")
 mut("wrap-atomicepoch-cas-always-ok", "break", ["C13", "C14"], "AtomicEpoch::compare_exchange reports Ok on failure",
     [ed(EPF, "Err(data) => Err(Epoch { data }),", "Err(data) => Ok(Epoch { data }),")], ["WRAP-ATOMICS"])
 mut("wrap-defer-none-runs-now", "break", ["C01", "C02", "C13"], "Option<&Guard>::defer_with_inner runs f at once when no guard is given",
